@@ -47,6 +47,10 @@ type ART struct {
 	len             int
 	size            int
 
+	// lastCheckpoint is the latest checkpoint handed out by Checkpoint. Values logged before it must stay intact for
+	// RevertToCheckpoint, so they are never updated in place.
+	lastCheckpoint *arena.MemDBCheckpoint
+
 	// These variables serve the caching mechanism, meaning they can be concurrently updated by read operations, thus
 	// they are protected by atomic operations.
 	// The lastTraversedNode stores addr in uint64 of the last traversed node, includes search and recursiveInsert.
@@ -422,6 +426,9 @@ func (t *ART) trySwapValue(addr arena.MemdbArenaAddr, value []byte) (int, bool) 
 			return len(oldVal), false
 		}
 	}
+	if t.lastCheckpoint != nil && !t.allocator.vlogAllocator.CanModify(t.lastCheckpoint, addr) {
+		return len(oldVal), false
+	}
 	if len(oldVal) > 0 && len(oldVal) == len(value) {
 		copy(oldVal, value)
 		return 0, true
@@ -487,6 +494,8 @@ func (t *ART) IsStaging() bool {
 // Checkpoint returns a checkpoint of ART.
 func (t *ART) Checkpoint() *arena.MemDBCheckpoint {
 	cp := t.allocator.vlogAllocator.Checkpoint()
+	last := cp
+	t.lastCheckpoint = &last
 	return &cp
 }
 
@@ -562,6 +571,7 @@ func (t *ART) Cleanup(h int) {
 func (t *ART) Reset() {
 	t.root = nullArtNode
 	t.stages = t.stages[:0]
+	t.lastCheckpoint = nil
 	t.dirty = false
 	t.vlogInvalid = false
 	t.size = 0
